@@ -130,4 +130,8 @@ KnownInert(Active, E) ==
        \/ E.name = "rshift"
     /\ E.out = "raise" /\ E.exc \in {"ValueError", "ZeroDivisionError"}
     /\ Note("C07-zero-divisor-raises-under-false-guard", <<E.name>>)
+
+(* ----------------------------------------------------------------------- *)
+(* C09 (oblivious control flow) *)
+KnownCFRaise(Active, R) == FALSE
 =============================================================================
